@@ -29,6 +29,7 @@ RULES = {
     "C19-X4": "range ends with different dimension counts => ERROR; dimension count and range flag stored on every OK path",
     "C19-X5": "channelSpec: number ('!' number)*; a '!' that is not followed by a number is ERROR, no number at all is NO_MORE, OK only after a number that is not followed by '!'",
     "C19-X7": "the integer readers the list walkers call without looking at their result deliver into the caller's variable whenever the conversion ran (no success-gated copy): an entry never keeps the previous entry's value",
+    "C19-X8": "the value wrappers convert what the entry function delivered: the Int wrapper runs SCPI_ParamToInt32 and the Double wrapper SCPI_ParamToDouble on the very token objects SCPI_ExprNumericListEntry filled (from -> valueFrom, to -> valueTo); no detour through another type or a copy of the text",
     "C19-X6": "channel list: NO_MORE only after the end of the expression was seen (malformed rest => ERROR with -170) and only behind an entry that was parsed and found well formed (an empty channel list is malformed)",
 }
 
@@ -342,6 +343,77 @@ def rule_x4(ck, prog, S):
     ck.analysed(f)
 
 
+def _conversions(prog, fn, pairs, conv, skip=None, depth=0):
+    """(pairs converted, problems): every call of fn that is handed one of the token / value names must be `conv` on a
+    matching (token, value) pair - or a static helper that does exactly that with its own parameters"""
+    got, probs = set(), []
+    names = {x for pr in pairs for x in pr}
+    for c in fn.calls():
+        if c is skip:
+            continue
+        args = [a.strip_all_casts().get("path") for a in C.call_args(c)]
+        touches = [x for x in args if x in names or (x or "").lstrip("&*") in {n.lstrip("&*") for n in names}]
+        if not touches:
+            continue
+        if c.get("callee") == conv:
+            if len(args) >= 3:
+                got.add((args[1], args[2]))
+            continue
+        g = prog.fn(c.get("callee") or "")
+        if g is not None and g.static and depth < 2:
+            sub = set()
+            gnames = [p_["name"] for p_ in g.params]
+            for tk, vl in pairs:
+                if tk in args and vl in args:
+                    sub.add((gnames[args.index(tk)], gnames[args.index(vl)]))
+            if sub:
+                g_got, g_probs = _conversions(prog, g, sub, conv, depth=depth + 1)
+                probs += ["in %s: %s" % (g.name, x) for x in g_probs]
+                if not g_probs and g_got == sub:
+                    got |= {(tk, vl) for tk, vl in pairs if tk in args and vl in args}
+                elif not g_probs:
+                    probs.append("%s converts %s, expected %s" % (g.name, sorted(g_got), sorted(sub)))
+                continue
+        probs.append("`%s` handles the entry's %s instead of %s" % (c.src[:60], "token or value", conv))
+    for n_, t in C.stores(fn):
+        tp = t.get("path") or ""
+        if any(tp == "*" + vl.lstrip("&") for _tk, vl in pairs):
+            probs.append("`%s` stores the value itself, bypassing %s" % (n_.src[:50], conv))
+    # a token parameter that is read field by field is being re-interpreted
+    if depth > 0:
+        for n_ in fn.nodes.values():
+            if n_.k == "MemberExpr" and any((n_.child(0).strip_all_casts().get("path") or "") == tk for tk, _vl in pairs):
+                probs.append("`%s` takes the token apart instead of handing it to %s" % (n_.src[:40], conv))
+                break
+    return got, probs
+
+
+def rule_x8(ck, prog, S):
+    for wname, conv in (("SCPI_ExprNumericListEntryInt", "SCPI_ParamToInt32"), ("SCPI_ExprNumericListEntryDouble", "SCPI_ParamToDouble")):
+        f = prog.fn(wname)
+        if f is None:
+            ck.anchor_lost("C19-X8", wname)
+            continue
+        ck.analysed(f)
+        st = K.site(f, "converts-the-delivered-tokens", 0)
+        ent = list(f.calls("SCPI_ExprNumericListEntry"))
+        if len(ent) != 1 or len(f.params) < 6:
+            ck.anchor_lost("C19-X8", "%s: one call of SCPI_ExprNumericListEntry" % wname)
+            continue
+        ea = C.call_args(ent[0])
+        tok_from, tok_to = ea[4].strip_all_casts().get("path"), ea[5].strip_all_casts().get("path")
+        vfrom, vto = f.params[4]["name"], f.params[5]["name"]
+        want = {(tok_from, vfrom), (tok_to, vto)}
+        got, probs = _conversions(prog, f, want, conv, skip=ent[0])
+        if not probs and got != want:
+            probs.append("%s is applied to %s, expected %s" % (conv, sorted(got), sorted(want)))
+        if probs:
+            ck.violated("C19-X8", st, K.loc(f, ent[0]), "%s: %s: the value is not the entry as written (a detour through another type "
+                        "rounds it, a bounded copy of the text cuts it)" % (wname, "; ".join(list(dict.fromkeys(probs))[:3])))
+        else:
+            ck.holds("C19-X8", st, K.loc(f, ent[0]), "%s(&%s -> %s), %s(&%s -> %s)" % (conv, tok_from, vfrom, conv, tok_to, vto))
+
+
 def run(ck, fb, tier):
     for cfg in fb.configs:
         ck.config = cfg
@@ -352,6 +424,7 @@ def run(ck, fb, tier):
         rule_x4(ck, prog, S)
         rule_x5(ck, prog)
         rule_x7(ck, prog, S)
+        rule_x8(ck, prog, S)
     if tier == "thorough":
         K.cross_config(ck, fb, "C19-XC", ['numericRange', 'channelRange', 'channelSpec', 'SCPI_ExprNumericListEntry', 'SCPI_ExprChannelListEntry'])
 
